@@ -82,6 +82,9 @@ class FakeDispatcher(YowConnectionDispatcher):
         self.rig.dispatchers.append(self)
         self.sent = bytearray()
         self.writes = []
+        # like asyncore.dispatcher_with_send: bytes accepted by sendData but not yet written to the socket (rig.hold_writes = the
+        # peer is not reading); they belong to this dispatcher object and are written ahead of anything sent later through it
+        self.out_buffer = bytearray()
         self.inbox = S.SQueue()
         self.inbox.external = True
 
@@ -134,6 +137,12 @@ class FakeDispatcher(YowConnectionDispatcher):
         if not self.up:
             self.rig.writes_while_down.append(len(data))
             return
+        if getattr(self.rig, "hold_writes", False):
+            self.out_buffer += data
+            return
+        if self.out_buffer:
+            data = bytes(self.out_buffer) + bytes(data)
+            del self.out_buffer[:]
         self.sent += data
         self.writes.append(bytes(data))
 
@@ -176,6 +185,7 @@ class Rig(object):
         self.recv_errors = []
         self.close_on_recv_error = False
         self.redundant_down = False
+        self.hold_writes = False
         self.writes_while_down = []
         self.server = server or NoiseServer()
         if profile is not None:
